@@ -14,7 +14,8 @@ from ..fingerprint import fingerprint
 PROP = 'C18'
 MOD = 'vp.props.c18'
 TEXTS = ['a = (1,\n b)\n', 'if x:\n  y\nelse:\n  $\n', "f'{a!r:>{w}}' \n", 'def f(a, *, b=1): return (yield)\n',
-         'class C:\n\tx: int = 1\nglobal x\n', 'import a.b as c\nlambda: 0']
+         'class C:\n\tx: int = 1\nglobal x\n', 'import a.b as c\nlambda: 0',
+         'x = 1\n    y = 2\nz = 3\n', "a = f'{b!r:>{c}' \n  d = (\ndef e(): pass\n"]
 KINDS = ['parse', 'strict', 'errors', 'pep8', 'tokenize', 'load']
 
 
@@ -248,7 +249,7 @@ def _bisect(acc, pending, run_one, f0):
 BODIES = {
     'parse0': ('parse', 0), 'parse1': ('parse', 1), 'parse2': ('parse', 2), 'parse3': ('parse', 3),
     'errors1': ('errors', 1), 'errors4': ('errors', 4), 'tokenize2': ('tokenize', 2), 'pep8_0': ('pep8', 0),
-    'strict1': ('strict', 1),
+    'strict1': ('strict', 1), 'parse6': ('parse', 6), 'parse7': ('parse', 7), 'errors6': ('errors', 6),
 }
 
 
@@ -507,7 +508,8 @@ def run(tier, seed):
     accs = None
     # ---------- (3) schedules: first measure the step counts (deterministic), then enumerate
     pairs = [(('parse0', 'parse1'), '3.8'), (('parse1', 'errors4'), '3.8'), (('tokenize2', 'parse0'), '3.8'),
-             (('pep8_0', 'parse1'), '3.8'), (('parse3', 'strict1'), '3.12')]
+             (('pep8_0', 'parse1'), '3.8'), (('parse3', 'strict1'), '3.12'), (('parse6', 'parse0'), '3.8'),
+             (('parse7', 'errors6'), '3.10')]
     if not quick:
         pairs += [(('parse2', 'parse3'), '3.6'), (('errors1', 'errors4'), '3.14'), (('parse0', 'errors1'), '3.14')]
     steps = {}
@@ -516,6 +518,8 @@ def run(tier, seed):
         steps[(names, v, st)] = r
     for names, v in pairs:
         for st in (0, 1):
+            if st == 1 and names[0] in ('parse6', 'parse7') and quick:
+                continue        # quick: the error-recovery bodies are only preempted (start=0), not preempting
             own, total = steps[(names, v, st)]
             ks = list(range(1, own + 1))
             add('schedules %s|%s %s start=%d, 1 preemption (%d steps)' % (names[0], names[1], v, st, own), 'sched_shard',
@@ -524,8 +528,8 @@ def run(tier, seed):
     names, v = ('tokenize2', 'parse0'), '3.8'
     own, total = steps[(names, v, 0)]
     other = total - own
-    k_list = list(range(1, own + 1, 2 if not quick else 12))
-    j_list = list(range(1, other, 3 if not quick else 18))
+    k_list = list(range(1, own + 1, 2 if not quick else 16))
+    j_list = list(range(1, other, 3 if not quick else 24))
     add('schedules tokenize2|parse0 3.8, 2 preemptions (%dx%d)' % (len(k_list), len(j_list)), 'sched_shard',
         [(list(names), v, 0, k_list[i::32], j_list) for i in range(32)])
     # three threads, one preemption
